@@ -163,8 +163,8 @@ c('NaiveTime::overflowing_add_offset', U, requires="twf(*self), offwf(offset)",
   ensures="twf(r.0), r.0.frac == self.frac, -1 <= r.1 <= 1, r.0.secs as int + r.1 as int * 86400 == self.secs as int + offset.local_minus_utc as int")
 c('NaiveTime::overflowing_sub_offset', U, requires="twf(*self), offwf(offset)",
   ensures="twf(r.0), r.0.frac == self.frac, -1 <= r.1 <= 1, r.0.secs as int + r.1 as int * 86400 == self.secs as int - offset.local_minus_utc as int")
-c('NaiveTime::Add__add', U, requires="twf(self), td_inv(rhs)", ensures="exists|c: int| #[trigger] add_post(self, td_ns(rhs), r, c)")
-c('NaiveTime::Sub__sub', U, requires="twf(self), td_inv(rhs)", ensures="exists|c: int| #[trigger] add_post(self, -td_ns(rhs), r, c)")
+c('NaiveTime::Add__add', U, requires="twf(self), td_inv(rhs)", ensures="twf(r), (r.secs as int, r.frac as int) == add_time(self, td_ns(rhs))")
+c('NaiveTime::Sub__sub', U, requires="twf(self), td_inv(rhs)", ensures="twf(r), (r.secs as int, r.frac as int) == add_time(self, -td_ns(rhs))")
 c('NaiveTime::Sub_NaiveTime__sub', U, requires="twf(self), twf(rhs)", ensures="td_inv(r), td_ns(r) == jpos(self, rhs) - jpos(rhs, self)")
 c('FixedOffset::local_minus_utc', 'verus:time', ensures="r == self.local_minus_utc")
 c('FixedOffset::utc_minus_local', 'verus:time', requires="offwf(*self)", ensures="r == -self.local_minus_utc")
@@ -368,3 +368,9 @@ c('LocalTimeType::new', U,
 c('LocalTimeType::offset', U, ensures="r == self.ut_offset")
 c('Transition::new', U, ensures="r.unix_leap_time == unix_leap_time, r.local_time_type_index == local_time_type_index")
 c('Transition::unix_leap_time', U, ensures="r == self.unix_leap_time")
+U = 'verus:time'
+DURNS = "((dur_secs(rhs) as int % 172800) * 1_000_000_000 + dur_nanos(rhs) as int)"
+c('NaiveTime::Add_Duration__add', U, requires="twf(self)", ensures="twf(r), (r.secs as int, r.frac as int) == add_time(self, %s)" % DURNS)
+c('NaiveTime::Sub_Duration__sub', U, requires="twf(self)", ensures="twf(r), (r.secs as int, r.frac as int) == add_time(self, -%s)" % DURNS)
+c('NaiveTime::Add_FixedOffset__add', U, requires="twf(self), offwf(rhs)", ensures="twf(r), r.frac == self.frac, r.secs as int == (self.secs as int + rhs.local_minus_utc as int) % 86400")
+c('NaiveTime::Sub_FixedOffset__sub', U, requires="twf(self), offwf(rhs)", ensures="twf(r), r.frac == self.frac, r.secs as int == (self.secs as int - rhs.local_minus_utc as int) % 86400")
